@@ -1,5 +1,7 @@
 """C07: candidate lists; theorems in coq/theories/Properties/C07.v"""
-from . import edcommon, edoracles
+import os
+
+from . import capicommon, edcommon, edoracles
 
 PROP = "C07"
 RULE = ("seeded generated editor histories dense in candidate-list operations: page sizes 1..10, forward/rearward choice, "
@@ -8,9 +10,33 @@ RULE = ("seeded generated editor histories dense in candidate-list operations: p
         "dictionary lookup; non-trivial = history visiting >= 2 states and changing the buffer >= 2 times")
 
 
+def capi_part(res, st, tier, work):
+    """the paging clauses on every observation of the C-API campaign (all 17 keyboard layouts incl. the ones
+    with alternate syllables, which the editor correspondence - Standard layout - does not reach)"""
+    fails = []
+    if not capicommon.build(st):
+        return fails
+    summary, corpus = capicommon.run(tier, os.path.join(work, "capi"))
+    if summary is None:
+        st["broken"].append({"obligation": "capi harness run", "detail": corpus})
+        return fails
+    res.coverage["evaluations"] += summary.get("ops", 0)
+    res.notes["capi"] = {k: summary.get(k) for k in ("cases", "ops", "variants", "crashes", "hangs", "wall_s")}
+    for f in summary.get("failures", []):
+        if f["signature"] == "paging":
+            fails.append({"signature": "capi-paging", "detail": f["detail"], "case_lines": [], "ops": f["ops"]})
+            break
+    return fails
+
+
 def run(tier):
-    return edcommon.run_check(PROP, tier, edoracles.c07, RULE, edcommon.ED_ASSUMPTIONS)
+    return edcommon.run_check(PROP, tier, edoracles.c07, RULE + "; plus total / page count / current page / enumeration consistency on "
+                              "every observation of the C-API campaign (all keyboard layouts)", edcommon.ED_ASSUMPTIONS, extra=capi_part)
 
 
 def replay(path):
+    import json
+    r = json.load(open(path))
+    if r.get("ops"):
+        return capicommon.replay(path)
     return edcommon.replay(path)
